@@ -1,5 +1,4 @@
-import Proofs.Codec.AminoNode
-import PocketModel.Store.NodeDB
+import Proofs.Store.NodeDB
 /-!
 # C04 — Saved state is reproduced exactly after reopening from disk
 
@@ -26,6 +25,123 @@ theorem byteslice_roundtrip (b : Bytes) (h : b.length < 2 ^ 63) (rest : Bytes) :
 theorem node_roundtrip (n : NodeRec) (h : n.WF) : makeNode (writeBytes n) = some n :=
   makeNode_writeBytes n h
 
+/-- Lazy child loading through the hash-addressed node map is structural unfolding: after
+`SaveBranch` of `t` into a node map all of whose entries (and `t`'s nodes) come from a collision-free
+universe `S`, loading from `t`'s root hash returns exactly `t`.  `hpers`: what `SaveBranch` skips as
+already persisted really is on disk. -/
+theorem load_save (H : Bytes → Bytes) (hH : HashOK H) (S : Tree → Prop) (hi : Inj H S)
+    (nodes : List (Bytes × Bytes)) (hc : Cons H S nodes) (t : Tree) (hwf : t.WF) (hS : ∀ s ∈ t.subtrees, S s)
+    (cur : Int) (hpers : ∀ s ∈ t.subtrees, s.version ≤ cur → Present H nodes s) :
+    loadRoot (saveBranch H cur t nodes) (hashTree H t) = some (some t) :=
+  loadRoot_of_present hH _ t hwf (saveBranch_present hi cur t nodes hc hS hpers)
+
+/-- … and nothing that was loadable before is disturbed by the save. -/
+theorem load_save_preserves (H : Bytes → Bytes) (hH : HashOK H) (S : Tree → Prop) (hi : Inj H S)
+    (nodes : List (Bytes × Bytes)) (hc : Cons H S nodes) (t : Tree) (hS : ∀ s ∈ t.subtrees, S s) (cur : Int)
+    (u : Tree) (hwf : u.WF) (hu : Present H nodes u) :
+    loadRoot (saveBranch H cur t nodes) (hashTree H u) = some (some u) :=
+  loadRoot_of_present hH _ u hwf (Present.mono hi cur t hc hS hu)
+
+/-- **Reopening reproduces every saved version.**  For every history `rs` of working trees whose
+blocks are legal (`GoodSteps`: kept nodes come from the previous tree, new nodes carry the next
+version, fields fit their machine types) and whose nodes do not collide under `H`: the store saves
+all of them, and a *new* tree object on the resulting disk returns, for every retained version `v`,
+exactly the tree the never-persisted replica `rs` holds at `v` — hence the same contents and the
+same root hash; `LoadVersion(0)` gives the latest; versions above the latest do not load. -/
+theorem reopen_all_versions (H : Bytes → Bytes) (hH : HashOK H) (S : Tree → Prop) (hi : Inj H S)
+    (rs : List (Option Tree)) (hg : GoodSteps S 0 none rs) :
+    ∃ t, runSaves H (MTree.new {}) rs = some t ∧
+      (∀ v, getImmutable t.db v = histAt rs v) ∧
+      (∀ v r, histAt rs v = some r →
+        ∃ m, loadStore t.db v = some m ∧ m.version = v ∧ m.root = r ∧
+          toListOpt m.root = toListOpt r ∧ hashOpt H m.root = hashOpt H r) ∧
+      (rs ≠ [] → ∃ m, loadStore t.db 0 = some m ∧ m.version = rs.length ∧ m.root = lastOf rs) ∧
+      (rs ≠ [] → ∀ v : Int, (rs.length : Int) < v → loadStore t.db v = none) := by
+  obtain ⟨t, hrun, g, hok⟩ := runSaves_good hH hi rs [] (MTree.new {}) (goodTree_fresh S) (histOK_nil S)
+    (by simpa [lastOf] using hg)
+  simp only [List.nil_append] at g hok
+  refine ⟨t, hrun, fun v => getImmutable_good hH g.disk hok v, ?_, ?_, ?_⟩
+  · intro v r hr
+    have hv := (histAt_some_iff rs v).mp (by rw [hr]; rfl)
+    obtain ⟨r', hr', hl⟩ := loadVersion_at hH (t0 := MTree.new t.db) g.disk hok v v hv.1 hv.2 (Or.inl rfl)
+    rw [hr] at hr'; cases hr'
+    simp only [loadStore, hl, Option.map_some]
+    exact ⟨_, rfl, rfl, rfl, rfl, rfl⟩
+  · intro hne
+    have hl1 : 1 ≤ (rs.length : Int) := by
+      cases rs with
+      | nil => exact absurd rfl hne
+      | cons a l => simp; omega
+    obtain ⟨r', hr', hl⟩ := loadVersion_at hH (t0 := MTree.new t.db) g.disk hok 0 rs.length hl1 (by omega) (Or.inr ⟨rfl, rfl⟩)
+    simp only [loadStore, hl, Option.map_some]
+    refine ⟨_, rfl, rfl, ?_⟩
+    have := (loadVersion_goodTree g.disk hne hr').lastSaved
+    simpa using this
+  · intro hne v hv
+    simp [loadStore, loadVersion_beyond (t0 := MTree.new t.db) g.disk hne v hv]
+
+/-- A store reopened at the latest version carries on exactly like the one that never stopped: the
+rest of the history saves the same versions with the same hashes, and the final disk again reloads
+every version. -/
+theorem reopen_and_continue (H : Bytes → Bytes) (hH : HashOK H) (S : Tree → Prop) (hi : Inj H S)
+    (rs₁ rs₂ : List (Option Tree)) (hne : rs₁ ≠ []) (hg : GoodSteps S 0 none (rs₁ ++ rs₂)) :
+    ∃ t₁ m t₂, runSaves H (MTree.new {}) rs₁ = some t₁ ∧ loadStore t₁.db 0 = some m ∧
+      runSaves H m rs₂ = some t₂ ∧ ∀ v, getImmutable t₂.db v = histAt (rs₁ ++ rs₂) v := by
+  have split : ∀ (l₁ l₂ : List (Option Tree)) (k : Int) (p : Option Tree), GoodSteps S k p (l₁ ++ l₂) →
+      GoodSteps S k p l₁ ∧ GoodSteps S (k + l₁.length) (if l₁ = [] then p else lastOf l₁) l₂ := by
+    intro l₁
+    induction l₁ with
+    | nil => intro l₂ k p h; simpa [GoodSteps] using h
+    | cons a l ih =>
+      intro l₂ k p h
+      obtain ⟨h1, h2⟩ := h
+      obtain ⟨h3, h4⟩ := ih l₂ (k + 1) a h2
+      refine ⟨⟨h1, h3⟩, ?_⟩
+      have e : k + 1 + (l.length : Int) = k + ((a :: l).length : Int) := by simp; omega
+      rw [e] at h4
+      have e2 : (if l = [] then a else lastOf l) = lastOf (a :: l) := by
+        cases l with
+        | nil => simp [lastOf]
+        | cons b l' => simp [lastOf, List.getLast?_cons_cons]
+      rw [e2] at h4
+      simpa using h4
+  obtain ⟨hg1, hg2⟩ := split rs₁ rs₂ 0 none hg
+  simp only [hne, if_false, Int.zero_add] at hg2
+  obtain ⟨t₁, hrun1, g1, hok1⟩ := runSaves_good hH hi rs₁ [] (MTree.new {}) (goodTree_fresh S) (histOK_nil S)
+    (by simpa [lastOf] using hg1)
+  simp only [List.nil_append] at g1 hok1
+  have hl1 : 1 ≤ (rs₁.length : Int) := by
+    cases rs₁ with
+    | nil => exact absurd rfl hne
+    | cons a l => simp; omega
+  obtain ⟨r', hr', hl⟩ := loadVersion_at hH (t0 := MTree.new t₁.db) g1.disk hok1 0 rs₁.length hl1 (by omega) (Or.inr ⟨rfl, rfl⟩)
+  have gm := loadVersion_goodTree g1.disk hne hr'
+  obtain ⟨t₂, hrun2, g2, hok2⟩ := runSaves_good hH hi rs₂ rs₁ _ gm hok1 hg2
+  refine ⟨t₁, _, t₂, hrun1, ?_, hrun2, fun v => getImmutable_good hH g2.disk hok2 v⟩
+  simp only [loadStore, hl, Option.map_some]
+
+/-- The hash `SaveVersion` reports is a function of the working tree alone — not of the DB, the
+cache, the retained versions or the path by which the tree was reached: two replicas holding the
+same tree report the same root hash. -/
+theorem hash_deterministic (H : Bytes → Bytes) (t₁ t₂ : MTree) (h : t₁.root = t₂.root)
+    (r₁ r₂ : MTree × Bytes × Int) (h1 : saveVersion H t₁ = some r₁) (h2 : saveVersion H t₂ = some r₂) :
+    r₁.2.1 = r₂.2.1 ∧ r₁.2.1 = hashOpt H t₁.root := by
+  have key : ∀ (t : MTree) (r : MTree × Bytes × Int), saveVersion H t = some r → r.2.1 = hashOpt H t.root := by
+    intro t r hr
+    unfold saveVersion at hr
+    simp only at hr
+    split at hr
+    · split at hr
+      · rename_i he; cases hr; exact he
+      · cases hr
+    · split at hr
+      · cases hr
+      · split at hr
+        · cases hr
+        · cases hr; rfl
+  rw [key t₁ r₁ h1, key t₂ r₂ h2, h]
+  exact ⟨rfl, rfl⟩
+
 /-! ## Non-vacuity -/
 example : isInt64 (-9223372036854775808) ∧ isInt64 9223372036854775807 := by decide
 example : encodeVarint (-3) = [5] ∧ encodeVarint 300 = [0xd8, 0x04] := by
@@ -35,5 +151,15 @@ private def leafRec : NodeRec := ⟨0, 1, 7, [1, 2], [3], [], []⟩
 private def innerRec : NodeRec := ⟨1, 2, 7, [1, 2], [], [9, 9], [8]⟩
 example : leafRec.WF := by constructor <;> simp [leafRec, isInt8, isInt64]
 example : innerRec.WF := by constructor <;> simp [innerRec, isInt8, isInt64]
+
+/-- A two-block history over `H = id` (trivially collision-free on these trees): the hypotheses of
+`reopen_all_versions` are satisfiable by a non-trivial history (insert, then replace + insert). -/
+private def l1 : Tree := .leaf [1] [10] 1
+private def l2 : Tree := .leaf [2] [20] 2
+private def t2 : Tree := .inner [2] 1 2 2 l1 l2
+example : GoodSteps (fun s => s ∈ [l1, l2, t2]) 0 none [some l1, some t2] := by
+  refine ⟨⟨?_, ?_, ?_, ?_⟩, ⟨?_, ?_, ?_, ?_⟩, trivial⟩ <;>
+    simp [subtreesOpt, Tree.subtrees, l1, l2, t2, Tree.version, Tree.WF, Tree.height, isInt8, isInt64]
+example : saveVersion id ((MTree.new {}).setRoot (some l1)) ≠ none := by decide
 
 end C04
